@@ -1537,167 +1537,83 @@ func (e *CoreExtension) filterSlice(value interface{}, args ...interface{}) (int
 		return nil, err
 	}
 
-	// Default length is to the end
-	length := -1
-	if len(args) > 1 {
-		// Make sure we can convert the second argument to an integer
-		if args[1] != nil {
-			length, err = toInt(args[1])
-			if err != nil {
-				return nil, err
-			}
+	// An omitted (or null) length means "to the end"
+	length := 0
+	hasLength := false
+	if len(args) > 1 && args[1] != nil {
+		length, err = toInt(args[1])
+		if err != nil {
+			return nil, err
 		}
+		hasLength = true
 	}
 
 	switch v := value.(type) {
 	case string:
 		runes := []rune(v)
-		runeCount := len(runes)
-
-		// Handle negative start index
-		if start < 0 {
-			// In Twig, negative start means count from the end of the string
-			// For example, -5 means "the last 5 characters"
-			// So we convert it to a positive index directly
-			start = runeCount + start
-		}
-
-		// Check bounds
-		if start < 0 {
-			start = 0
-		}
-		if start >= runeCount {
-			return "", nil
-		}
-
-		// Calculate end index
-		end := runeCount
-		if length >= 0 {
-			end = start + length
-			if end > runeCount {
-				end = runeCount
-			}
-		} else if length < 0 {
-			// Negative length means count from the end
-			end = runeCount + length
-			if end < start {
-				end = start
-			}
-		}
-
-		return string(runes[start:end]), nil
+		from, to := sliceBounds(len(runes), start, length, hasLength)
+		return string(runes[from:to]), nil
 	case []interface{}:
-		count := len(v)
-
-		// Handle negative start index
-		if start < 0 {
-			start = count + start
-		}
-
-		// Check bounds
-		if start < 0 {
-			start = 0
-		}
-		if start >= count {
-			return []interface{}{}, nil
-		}
-
-		// Calculate end index
-		end := count
-		if length >= 0 {
-			end = start + length
-			if end > count {
-				end = count
-			}
-		} else if length < 0 {
-			// Negative length means count from the end
-			end = count + length
-			if end < start {
-				end = start
-			}
-		}
-
-		return v[start:end], nil
+		from, to := sliceBounds(len(v), start, length, hasLength)
+		result := make([]interface{}, to-from)
+		copy(result, v[from:to])
+		return result, nil
 	}
 
 	// Try reflection for other types
 	rv := reflect.ValueOf(value)
 	switch rv.Kind() {
 	case reflect.String:
-		s := rv.String()
-		runes := []rune(s)
-		runeCount := len(runes)
-
-		// Handle negative start index
-		if start < 0 {
-			start = runeCount + start
-		}
-
-		// Check bounds
-		if start < 0 {
-			start = 0
-		}
-		if start >= runeCount {
-			return "", nil
-		}
-
-		// Calculate end index
-		end := runeCount
-		if length >= 0 {
-			end = start + length
-			if end > runeCount {
-				end = runeCount
-			}
-		} else if length < 0 {
-			// Negative length means count from the end
-			end = runeCount + length
-			if end < start {
-				end = start
-			}
-		}
-
-		return string(runes[start:end]), nil
+		runes := []rune(rv.String())
+		from, to := sliceBounds(len(runes), start, length, hasLength)
+		return string(runes[from:to]), nil
 	case reflect.Array, reflect.Slice:
-		count := rv.Len()
+		from, to := sliceBounds(rv.Len(), start, length, hasLength)
 
-		// Handle negative start index
-		if start < 0 {
-			start = count + start
-		}
-
-		// Check bounds
-		if start < 0 {
-			start = 0
-		}
-		if start >= count {
-			return reflect.MakeSlice(reflect.SliceOf(rv.Type().Elem()), 0, 0).Interface(), nil
-		}
-
-		// Calculate end index
-		end := count
-		if length >= 0 {
-			end = start + length
-			if end > count {
-				end = count
-			}
-		} else if length < 0 {
-			// Negative length means count from the end
-			end = count + length
-			if end < start {
-				end = start
-			}
-		}
-
-		// Create a new slice with the same type
-		result := reflect.MakeSlice(reflect.SliceOf(rv.Type().Elem()), end-start, end-start)
-		for i := start; i < end; i++ {
-			result.Index(i - start).Set(rv.Index(i))
+		// Create a new slice with the same element type
+		result := reflect.MakeSlice(reflect.SliceOf(rv.Type().Elem()), to-from, to-from)
+		for i := from; i < to; i++ {
+			result.Index(i - from).Set(rv.Index(i))
 		}
 
 		return result.Interface(), nil
 	}
 
 	return nil, fmt.Errorf("cannot slice %T", value)
+}
+
+// sliceBounds turns Twig's slice(start, length) arguments into the half-open index
+// range [from, to) of a sequence with count elements: a negative start counts from the
+// end, an omitted length means "to the end", a negative length stops that many elements
+// before the end, and everything is clamped to the sequence.
+func sliceBounds(count, start, length int, hasLength bool) (int, int) {
+	from := start
+	if from < 0 {
+		from += count
+		if from < 0 {
+			from = 0
+		}
+	}
+	if from > count {
+		from = count
+	}
+
+	to := count
+	if hasLength {
+		if length >= 0 {
+			// from + length may overflow for huge lengths; compare against the remainder instead
+			if length < count-from {
+				to = from + length
+			}
+		} else {
+			to = count + length
+			if to < from {
+				to = from
+			}
+		}
+	}
+
+	return from, to
 }
 
 func (e *CoreExtension) filterKeys(value interface{}, args ...interface{}) (interface{}, error) {
